@@ -13,7 +13,7 @@
 (* sequential library is its return.  MC_* modules instantiate the menus   *)
 (* and compose the actions into bounded scenarios / sessions.              *)
 (***************************************************************************)
-EXTENDS Moments, Json
+EXTENDS Trunc, Json
 
 VARIABLES heap, hist
 vars == <<heap, hist>>
@@ -404,6 +404,114 @@ AIntegrateLogFactor(i, j) ==
                      lnc |-> MkSeq(R, LAMBDA r : f.lnb[J(r)])]))
 
 \* ------------------------------------------------------------------------
+\* Truncated one-dimensional measures (C20)
+\* A truncated object: [cls |-> "Trunc" | "TruncPDF", u |-> 1-D measure record, sq |-> sequence of sqrt(lambda_r),
+\*                      lo, hi |-> exact limits (menu scalars), loInf, hiInf |-> BOOLEAN]
+\* ------------------------------------------------------------------------
+IsTrunc(o) == o.cls \in {"Trunc", "TruncPDF"}
+
+\* 1-D menus whose precisions are perfect squares (so that standardised limits are rational)
+SQ1 == << Q(1, 1), Q(2, 1), Q(1, 2), Q(3, 2) >>          \* sqrt(lambda)
+NU1 == << Q(1, 1), Q(-1, 2), Q(3, 2), Q(-2, 1) >>
+LIMITS == << [lo |-> Q(-1, 1), hi |-> Q(2, 1), loInf |-> FALSE, hiInf |-> FALSE],
+             [lo |-> Q(0, 1), hi |-> Q(0, 1), loInf |-> FALSE, hiInf |-> TRUE],
+             [lo |-> Q(0, 1), hi |-> Q(1, 2), loInf |-> TRUE, hiInf |-> FALSE],
+             [lo |-> Q(-1, 2), hi |-> Q(1, 2), loInf |-> FALSE, hiInf |-> FALSE],
+             [lo |-> Q(4, 1), hi |-> Q(0, 1), loInf |-> FALSE, hiInf |-> TRUE],
+             [lo |-> Q(0, 1), hi |-> Q(0, 1), loInf |-> TRUE, hiInf |-> TRUE],
+             [lo |-> Q(1, 2), hi |-> Q(3, 1), loInf |-> FALSE, hiInf |-> FALSE],
+             [lo |-> Q(-3, 1), hi |-> Q(-1, 2), loInf |-> FALSE, hiInf |-> FALSE] >>
+
+\* a 1-D measure / density with square precision: kind in {"Measure", "PDF"}
+ANewMeasure1D(kind, R, s) ==
+    LET qs == Pick(SQ1, R, s) qn == Pick(NU1, R, s) qb == Pick(LNB, R, s)
+        sq == MkSeq(R, LAMBDA i : QS(qs[i]))
+        lam(i) == FMul(sq[i], sq[i])
+        qL == MkSeq(R, LAMBDA i : Q(<<<<qs[i].n * qs[i].n>>>>, qs[i].d * qs[i].d))
+        qv == MkSeq(R, LAMBDA i : Q(<<qn[i].n>>, qn[i].d))
+        o == IF kind = "Measure"
+             THEN MkObj("Measure", MkSeq(R, LAMBDA i : <<<<lam(i)>>>>), MkSeq(R, LAMBDA i : <<QS(qn[i])>>),
+                        MkSeq(R, LAMBDA i : LNQ(QS(qb[i]))))
+             ELSE NewPdfGen("PDF", "S", MkSeq(R, LAMBDA i : <<<<FInv(lam(i))>>>>), MkSeq(R, LAMBDA i : <<QS(qn[i])>>), <<>>, <<>>)
+        \* for the density the menu "lambda" is used as 1/Sigma: Sigma = d^2/n^2
+        qSg == MkSeq(R, LAMBDA i : Q(<<<<qs[i].d * qs[i].d>>>>, qs[i].n * qs[i].n))
+    IN Emit(Append(heap, o),
+            IF kind = "Measure"
+            THEN Step("NewMeasure", [cls |-> "Measure", Lambda |-> qL, nu |-> qv, ln_beta |-> qb, sq |-> qs], NoObj,
+                      NextId, ExpectObj(o), 0, NoObj, NoObj)
+            ELSE Step("NewPdf", [cls |-> "PDF", mode |-> "S", Sigma |-> qSg, mu |-> qv, sq |-> qs], NoObj,
+                      NextId, ExpectObj(o), 0, NoObj, NoObj))
+
+\* sqrt(lambda) of the components of heap[i], recovered from the constructor step that created it
+SqOf(i) == LET st == CHOOSE h \in {hist[k] : k \in 1..Len(hist)} : h.id = i IN MkSeq(Len(st.a.sq), LAMBDA r : QS(st.a.sq[r]))
+
+\* limits: lim = an entry of LIMITS (shared by all components); lmode in {"scalar", "array"}: how they are passed
+ANewTrunc(cls, i, lim, lmode) ==
+    LET u == heap[i]
+        t == [cls |-> cls, u |-> u, sq |-> SqOf(i), lo |-> lim.lo, hi |-> lim.hi, loInf |-> lim.loInf, hiInf |-> lim.hiInf]
+    IN /\ IsMeasure(u) /\ NumD(u) = 1 /\ ~(lim.loInf /\ lim.hiInf /\ lmode = "none")
+       /\ Emit(Append(heap, t),
+               Step("NewTrunc", [cls |-> cls, i |-> i, lo |-> lim.lo, hi |-> lim.hi, loInf |-> lim.loInf, hiInf |-> lim.hiInf,
+                                 lmode |-> lmode], NoObj, NextId, [cls |-> cls], 0, NoObj, NoObj))
+
+\* standardised quantities of component r of a truncated object
+TrMu(t, r) == FDiv(t.u.nu[r][1], t.u.Lam[r][1][1])
+TrSigma(t, r) == FInv(t.sq[r])
+TrAlpha(t, r) == FMul(FSub(QS(t.lo), TrMu(t, r)), t.sq[r])
+TrBeta(t, r) == FMul(FSub(QS(t.hi), TrMu(t, r)), t.sq[r])
+TrMass(t, r) == LnMass(t.u, r)                          \* ln of the untruncated mass of the base measure
+\* int_a^b x^k u_r(x) dx
+TrMoment(t, r, k) == TruncMomentVal(k, TrMass(t, r), TrMu(t, r), TrSigma(t, r), t.loInf, TrAlpha(t, r), t.hiInf, TrBeta(t, r))
+\* the same for the normalised base density (ln weight 0)
+TrMoment0(t, r, k) == TruncMomentVal(k, LNZero, TrMu(t, r), TrSigma(t, r), t.loInf, TrAlpha(t, r), t.hiInf, TrBeta(t, r))
+
+\* integrate("1" | "x" | "x**2" | "x**k", k)
+\* Trunc:    int_a^b x^k u(x) dx                      (a Val)
+\* TruncPDF: int_a^b x^k u(x) dx / int_a^b u(x) dx    (a ratio of Vals)
+ATruncIntegrate(i, key, k) ==
+    LET t == heap[i] R == NumR(t.u) IN
+    /\ IsTrunc(t)
+    /\ Emit(heap, Step("TruncIntegrate", [i |-> i, key |-> key, k |-> k], NoObj, 0, NoObj, 0, NoObj,
+                       IF t.cls = "Trunc"
+                       THEN [val |-> MkSeq(R, LAMBDA r : TrMoment(t, r, k)),
+                             scale |-> [ln |-> MkSeq(R, LAMBDA r : TrMass(t, r)),
+                                        c |-> MkSeq(R, LAMBDA r : RawMoment(IF k % 2 = 0 THEN k ELSE k + 1, TrMu(t, r),
+                                                                         FMul(TrSigma(t, r), TrSigma(t, r))))]]
+                       ELSE [num |-> MkSeq(R, LAMBDA r : TrMoment0(t, r, k)),
+                             den |-> MkSeq(R, LAMBDA r : TrMoment0(t, r, 0)),
+                             scale |-> [ln |-> MkSeq(R, LAMBDA r : LNZero),
+                                        c |-> MkSeq(R, LAMBDA r : RawMoment(IF k % 2 = 0 THEN k ELSE k + 1, TrMu(t, r),
+                                                                         FMul(TrSigma(t, r), TrSigma(t, r))))]]))
+
+\* exact order comparison of two menu scalars (plain integer arithmetic)
+QLe(a, b) == a.n * b.d <= b.n * a.d
+
+\* __call__ at exact points qX (menu 1-vectors): u(x) inside the interval, 0 outside; TruncPDF divides by the truncated mass
+ATruncCall(i, qX, elementwise) ==
+    LET t == heap[i] R == NumR(t.u) N == Len(qX)
+        inside(k) == LET x == Q(qX[k].n[1], qX[k].d) IN (t.loInf \/ QLe(t.lo, x)) /\ (t.hiInf \/ QLe(x, t.hi))
+        cell(r, k) == [inside |-> inside(k), ln |-> IF t.cls = "Trunc" THEN EvalLn(t.u, r, QV(qX[k]))
+                                                     ELSE LNSub(EvalLn(t.u, r, QV(qX[k])), TrMass(t, r))]
+    IN /\ IsTrunc(t) /\ (elementwise => N = R)
+       /\ Emit(heap, Step("TruncCall", [i |-> i, x |-> qX, elementwise |-> elementwise], NoObj, 0, NoObj, 0, NoObj,
+                          [cells |-> IF elementwise THEN MkSeq(R, LAMBDA r : cell(r, r))
+                                     ELSE MkSeq(R, LAMBDA r : MkSeq(N, LAMBDA k : cell(r, k))),
+                           den |-> IF t.cls = "Trunc" THEN <<>> ELSE MkSeq(R, LAMBDA r : TrMoment0(t, r, 0))]))
+
+ATruncGetDensity(i) ==
+    LET t == heap[i] n == [t EXCEPT !.cls = "TruncPDF"] IN
+    /\ IsTrunc(t) /\ t.cls = "Trunc"
+    /\ Emit(Append(heap, n), Step("TruncGetDensity", [i |-> i], NoObj, NextId, [cls |-> "TruncPDF"], 0, NoObj, NoObj))
+
+\* get_mean / get_variance of the normalised truncated density: moments m0, m1, m2 of the truncated standard problem
+ATruncStat(i, what) ==
+    LET t == heap[i] R == NumR(t.u) IN
+    /\ IsTrunc(t) /\ t.cls = "TruncPDF"
+    /\ Emit(heap, Step("TruncStat", [i |-> i, what |-> what], NoObj, 0, NoObj, 0, NoObj,
+                       [m0 |-> MkSeq(R, LAMBDA r : TrMoment0(t, r, 0)), m1 |-> MkSeq(R, LAMBDA r : TrMoment0(t, r, 1)),
+                        m2 |-> MkSeq(R, LAMBDA r : TrMoment0(t, r, 2))]))
+
+\* ------------------------------------------------------------------------
 \* Properties that are meaningful in every state of every instance
 \* ------------------------------------------------------------------------
 \* C04: every populated cache of every live object equals the value derived
@@ -634,6 +742,25 @@ Inv_Generalize ==
     /\ IsAct("GetDensity") => SemEq(heap[Last.id], GetDensity(Generalize(heap[Last.a.i])))
     /\ (IsAct("Multiply") \/ IsAct("Hadamard") \/ IsAct("Product") \/ IsAct("GetDensity")) =>
           CacheCoherent(heap[Last.id])
+
+\* C20: the antiderivative certificate; additivity over adjacent intervals; the untruncated limit
+Inv_TruncCertificate == \A j \in 0..6 : TruncCertificate(j)
+Inv_TruncAdditive ==
+    IsAct("TruncIntegrate") =>
+      LET t == heap[Last.a.i] k == Last.a.k IN
+      \A r \in 1..NumR(t.u) :
+        LET ln == TrMass(t, r) mu == TrMu(t, r) sg == TrSigma(t, r)
+            cut == FQ(1, 3)         \* an arbitrary interior cut point (standardised)
+            whole == TruncMomentVal(k, ln, mu, sg, t.loInf, TrAlpha(t, r), t.hiInf, TrBeta(t, r))
+            left == TruncMomentVal(k, ln, mu, sg, t.loInf, TrAlpha(t, r), FALSE, cut)
+            right == TruncMomentVal(k, ln, mu, sg, FALSE, cut, t.hiInf, TrBeta(t, r))
+            full == TruncMomentVal(k, ln, mu, sg, TRUE, 0, TRUE, 0)
+        IN /\ ValEq(left \o right, whole)
+           /\ ValEq(full, <<Term(RawMoment(k, mu, FMul(sg, sg)), ln, "one", 0)>>)
+           /\ k <= 4 => FEq(RawMoment(k, mu, FMul(sg, sg)),
+                            LET f == Form(<<1>>, 0) m == <<mu>> S == <<<<FMul(sg, sg)>>>> IN
+                            CASE k = 0 -> 1 [] k = 1 -> Mom1(f, m, S) [] k = 2 -> Mom2(f, f, m, S)
+                              [] k = 3 -> Mom3(f, f, f, m, S) [] k = 4 -> Mom4(f, f, f, f, m, S))
 
 \* the exporter: print the behaviour once it is complete (Done is defined by the MC module)
 Export(done) == done => PrintT(ToJson(hist))
